@@ -20,7 +20,7 @@ RULE = ('roundtrip units: cookie names from the token alphabet x plain values (t
         'Response/HTTPResponse objects and through a handler behind Ombott.__call__; tamper units: for each signed cookie every '
         'position x {16 substitution symbols, deletion, truncation} in quoted and unquoted transport form, plus swaps / length changes / '
         'other secret / other name. Non-trivial = a signed cookie, or a plain value needing quoting; distinct = distinct Cookie header.')
-REQUIRED = ['plain_roundtrips', 'signed_roundtrips', 'quoted_values', 'tamper_reads', 'tamper_substitution', 'tamper_deletion',
+REQUIRED = ['emitted_by_a_copied_response', 'plain_roundtrips', 'signed_roundtrips', 'quoted_values', 'tamper_reads', 'tamper_substitution', 'tamper_deletion',
             'tamper_truncation', 'tamper_swap', 'tamper_other_secret', 'tamper_other_name', 'unpickler_calls_observed', 'read_as_absent',
             'via_wsgi', 'unquoted_form', 'among_other_cookies']
 ASSUMPTIONS = ['cookie names are RFC 6265 tokens accepted by http.cookies; values are non-empty and at most 4096 characters',
@@ -40,10 +40,13 @@ SENT = object()
 
 
 def set_and_emit(kind, name, value, secret=None, **opts):
-    """-> the Set-Cookie header value as handed to the server (latin-1 form)"""
+    """-> the Set-Cookie header value as handed to the server (latin-1 form).
+    kind 'Response' | 'HTTPResponse' | 'copied' (set on a Response, emitted by its copy: what redirect() does)"""
     from ombott.response import Response, HTTPResponse
-    r = Response() if kind == 'Response' else HTTPResponse('b')
+    r = HTTPResponse('b') if kind == 'HTTPResponse' else Response()
     r.set_cookie(name, value, secret=secret, **opts)
+    if kind == 'copied':
+        r = r.copy(cls=HTTPResponse)
     vals = [v for k, v in r.headerlist if k == 'Set-Cookie']
     assert len(vals) == 1, vals
     return vals[0]
@@ -131,7 +134,9 @@ def roundtrip_unit(ctx, unit):
         where = f'{"signed" if signed else "plain"} cookie {name}={value!r} ({mode})'
         try:
             if mode == 'object':
-                kind = rng.choice(['Response', 'HTTPResponse'])
+                kind = rng.choice(['Response', 'HTTPResponse', 'copied'])
+                if kind == 'copied':
+                    ctx.count('emitted_by_a_copied_response')
                 if signed:
                     sc = mon.sign(name, value, secret, kind)
                 else:
